@@ -229,6 +229,56 @@ def explore_reservations(tier, seed):
             "bound": "nested reserve_registers contexts of depth 1-3 on one loop-carried register (riscv and x86 stacks), with and without a second register in the innermost context"}
 
 
+@rechecked
+def check_infinite_registers(order):
+    """
+    Infinite registers popped for register types that share ONE pool (x86: 64/32/16/8-bit general registers; xmm/ymm/zmm): while they are all held,
+    no two of them may denote the same slot of the pool (pool key, index) - whatever the order of the types - and a freed slot is handed out again
+    only after it was pushed back.
+    """
+    from xdsl.backend.x86.register_stack import X86RegisterStack
+    from xdsl.dialects.x86 import registers as R
+
+    types = {"q": R.Reg64Type, "d": R.Reg32Type, "w": R.Reg16Type, "b": R.Reg8Type, "x": R.SSERegisterType, "y": R.AVX2RegisterType, "z": R.AVX512RegisterType}
+    stack = X86RegisterStack.get(allocatable_registers=(), allow_infinite=True)
+    held = []
+    for t in order:
+        r = stack.pop(types[t])
+        slot = (r.register_pool_key(), r.index.data)
+        for (o, oslot) in held:
+            if oslot == slot:
+                return {"order of register types": order, "why": f"{r} was handed out while {o} still occupies the same slot {slot} of the pool", "key": "C19/interference"}
+        held.append((r, slot))
+    # free the second one and pop again: only that slot (or a new one) may come back
+    if len(held) >= 2:
+        freed, fslot = held.pop(1)
+        stack.push(freed)
+        r = stack.pop(types[order[0]])
+        slot = (r.register_pool_key(), r.index.data)
+        if any(oslot == slot for _o, oslot in held):
+            return {"order of register types": order, "why": f"after freeing {freed}, {r} was handed out although its slot {slot} is still occupied", "key": "C19/interference"}
+    return None
+
+
+def explore_infinite(tier, seed):
+    import itertools
+
+    cases, fails = 0, []
+    for L in (2, 3):
+        for order in itertools.product("qdwb", repeat=L):
+            cases += 1
+            f = check_infinite_registers("".join(order))
+            if f and not fails:
+                fails.append(f)
+        for order in itertools.product("xyz", repeat=L):
+            cases += 1
+            f = check_infinite_registers("".join(order))
+            if f and not fails:
+                fails.append(f)
+    return {"cases": cases, "failures": fails, "exhaustive": True,
+            "bound": "x86 infinite registers: every sequence of 2-3 pops over the general-register widths (one pool) and over xmm/ymm/zmm (one pool) with an empty finite pool; then one push + pop"}
+
+
 def gen(rnd):
     n = rnd.randrange(1, 7)
     ops = []
